@@ -282,6 +282,17 @@ def prove(ctx: Ctx, pid: str, extra_targets: list[str] | None = None, gen_info: 
             else:
                 ctx.discharged.append(t)
         ctx.notes["axioms"] = {t: axioms.get(t) for t in thms}
+        if ok and not ctx.quick:
+            # thorough tier: the toolchain's independent re-checker replays the compiled declarations of this property's
+            # theorem modules through the kernel once more
+            mods = [f"SparseV.Props.{pid}"] + [t for t in (extra_targets or []) if t.startswith("SparseV.Props.")]
+            try:
+                r = subprocess.run(["lake", "env", "leanchecker", *mods], cwd=LEAN, capture_output=True, text=True, timeout=3000)
+                ctx.notes["leanchecker"] = {"modules": mods, "returncode": r.returncode, "tail": (r.stdout + r.stderr)[-300:]}
+                if r.returncode != 0:
+                    ctx.broke("audit:leanchecker", f"leanchecker rejected {mods}: {(r.stdout + r.stderr)[-300:]}")
+            except (subprocess.TimeoutExpired, FileNotFoundError) as e:
+                ctx.notes["leanchecker"] = {"modules": mods, "skipped": str(e)[:200]}
         bad = forbidden_tokens()
         if bad:
             ctx.broke("audit:forbidden-tokens", "; ".join(bad[:5]))
